@@ -123,6 +123,9 @@ def norm(tokens):
         or any(w in TYPE_HEADS for w in words)
     io_like = head in IO_HEADS
     callish = head in ("call", "subroutine") or "subroutine" in [t for _, t in seq[i:i + 5]]
+    if head == "character":
+        seq = _len_first(seq, i)
+        n = len(seq)
     depth = 0
     while j < n:
         k, t = seq[j]
@@ -150,6 +153,37 @@ def norm(tokens):
         out.append(t if k in ("str", "name") else t.lower())
         j += 1
     return out
+
+
+def _len_first(seq, i):
+    """CHARACTER(KIND=k, LEN=n) is printed as CHARACTER(LEN = n, KIND = k): with both keywords present the
+    order of the two selectors is part of the KIND=/LEN= canonicalisation."""
+    try:
+        a = next(j for j in range(i, len(seq)) if seq[j][1] == "(")
+    except StopIteration:
+        return seq
+    if a != i + 1:
+        return seq
+    depth = 0
+    b = None
+    commas = []
+    for j in range(a, len(seq)):
+        t = seq[j][1]
+        if t in "([":
+            depth += 1
+        elif t in ")]":
+            depth -= 1
+            if depth == 0:
+                b = j
+                break
+        elif t == "," and depth == 1:
+            commas.append(j)
+    if b is None or len(commas) != 1:
+        return seq
+    first, second = seq[a + 1:commas[0]], seq[commas[0] + 1:b]
+    if len(first) > 1 and len(second) > 1 and first[0][1] == "kind" and first[1][1] == "=" and second[0][1] == "len" and second[1][1] == "=":
+        return seq[:a + 1] + second + [seq[commas[0]]] + first + seq[b:]
+    return seq
 
 
 def split_statements(text):
